@@ -94,6 +94,9 @@ def boolShorthand (bs : Bool) (e : Expr) : Expr :=
     if args.isEmpty && f.isBoolean then .cmp (.func false f l []) .Eq (.val false (ofS "true")) else e
   | e => e
 
+/-- functions whose brackets are optional (parser.rs `takes_no_arguments`) -/
+def Function.takesNoArguments (f : Function) : Bool := function_takes_no_arguments.contains f
+
 inductive FnHdr (ts : List Lexem) where
   | args (curly : Bool) (r : Rest ts)
   | ret (res : Except PErr Expr) (r : Rest ts)
@@ -103,7 +106,8 @@ def fnHeader (fn : Function) : (ts : List Lexem) → FnHdr ts
   | [] => .args false (Rest.refl _)
   | .open_ :: r => .args false ⟨r, by simp⟩
   | .copen :: r => .args true ⟨r, by simp⟩
-  | _ :: r => if fn.isBoolean then .ret (.ok (.func0 false fn)) ⟨r, by simp⟩
+  | t :: r => if fn.isBoolean then .ret (.ok (.func0 false fn)) ⟨r, by simp⟩
+              else if fn.takesNoArguments then .ret (.ok (.func0 false fn)) ⟨t :: r, Nat.le_refl _⟩   -- D31 fix: the lexem is put back
               else .ret (.error (.msg "Error in function expression")) ⟨r, by simp⟩
 
 mutual
